@@ -66,3 +66,16 @@ def call_post(ts, v):
     except Exception:  # noqa: BLE001
         rj = {"k": "E"}
     return {"rule": "postprocess", "ts": qa.ts_json(ts), "a": before, "a2": [qa.val_json(v)], "res": rj}
+
+
+def random_rows_stage(ctx, prop, post=False):
+    """Random well-typed calls of the productions that implement this property (harness/rulefuzz.py)."""
+    from .. import rulefuzz
+    n = 120 if ctx.quick else 2500
+    cases = rulefuzz.cases_for(rulefuzz.FAMILY[prop], n, ctx.seed * 7919 + 13)
+    core.run_stage(ctx, "random-rows", cases, rulefuzz.row, "RulesTrace", sig_keys=("rule",), nontrivial=lambda c: (c["rule"], c["seed"]))
+    if post:
+        import random as _r
+        rnd = _r.Random(ctx.seed + 5)
+        pc = [{"rule": "postprocess", "seed": rnd.randrange(1 << 40)} for _ in range(1500 if ctx.quick else 30000)]
+        core.run_stage(ctx, "random-postprocess-rows", pc, rulefuzz.post_row, "RulesTrace", sig_keys=("rule",), nontrivial=lambda c: c["seed"])
